@@ -104,6 +104,10 @@ Step(Shs, e, t) ==
     THEN LET total == FoldSeq(LAMBDA s, acc : acc + e.pbe[s] + SizeSum(Shs[s].rows), 0, [s \in 1..N |-> s])
          IN IF e.ret = RInt(total) THEN V(TRUE, Shs, "")
             ELSE V(FALSE, Shs, "volume() returned " \o ToJson(e.ret) \o " expected the sum over all shards " \o ToString(total))
+    ELSE IF e.op = "limits"
+    THEN \* the size limit every shard works with (in KiB, times the number of shards): the total, whichever way the cache came to be
+         IF e.ret = [k |-> "ints", v |-> [s \in 1..N |-> t.init.limit \div 1024]] THEN V(TRUE, Shs, "")
+         ELSE V(FALSE, Shs, "C13 the total size limit " \o ToString(t.init.limit \div 1024) \o " KiB is not divided among the shards: N x shard limit = " \o ToJson(e.ret))
     ELSE IF e.op \in {"pickle", "reopen", "copy"}
     THEN \* C18: another handle on the same directory (unpickled, reopened): the same shards, nothing changes
          IF e.ret.k # "none" THEN V(FALSE, Shs, "C18 " \o e.op \o " of the sharded cache failed with " \o e.ret.k)
